@@ -546,6 +546,20 @@ pub fn plan_creator(w: &World, _k: &Knobs, actor: &mut Actor, l: &Ledger, now: i
             }
         }
     }
+    // one creation in eight is sent in ONE transaction with the deletion of the mint's badge in front of it: what the
+    // deletion leaves behind inside the transaction must not count as a badge any more
+    if forged_badge.is_none() && rng.chance(1, 8) {
+        if let Some((tx, tag)) = flow.last_mut() {
+            if tag.starts_with("initialize_pool") || tag.starts_with("initialize_reward") {
+                let del = ix::mk(
+                    wa::DeleteTokenBadge { whirlpools_config: config, whirlpools_config_extension: ce, token_badge_authority: w.fee_authority, token_mint: mint, token_badge: badge, receiver: me },
+                    wi::DeleteTokenBadge {},
+                );
+                tx.ixs.insert(0, del);
+                tag.push_str(" [badge deleted in the same transaction]");
+            }
+        }
+    }
     if let Some(fk) = forged_badge {
         for (tx, tag) in flow.iter_mut() {
             for i in tx.ixs.iter_mut() {
